@@ -255,6 +255,7 @@ func init() {
 		reportCells(r, "C15/lua-sensitivity", wc.cells["lua/dec"])
 		r.floor("C15/lua-sensitivity", 8)
 		wireBeColumn(wc, r, "C15")
+		wireTemplateTaint(w, wc, r, "C15", []string{"lua"})
 		wireLuaSizes(wc, r)
 		wireTables(w, r, "C15")
 		wireAssumptions(r)
